@@ -246,7 +246,7 @@ CHECKS = {
     "C19": dict(
         bins=["c19", "c19t"], replay_bin="c19", replay_route=[("c19t ", "c19t", ["--mode", "threads"])],
         campaigns=lambda tier, seed: [dict(name="interleaved_calls", bin="c19", shards=16, timeout=3000),
-                                      dict(name="threads_tsan", bin="c19t", shards=8, shards_flexible=False, timeout=3000, args=["--mode", "threads"])], level="exploration",
+                                      dict(name="threads_tsan", bin="c19t", shards=8, shards_flexible=False, timeout=(1800 if tier == "thorough" else 420), args=["--mode", "threads"])], level="exploration",
         rule=("rapidcheck cases of 2..8 connections (generated exchanges, multipart with/without file extraction, urlencoded + auth, gzip / deflate / two-layer / LZMA-alone coded bodies with per-connection LZMA properties, chunked bodies with extensions, trailers, folded and repeated fields, "
               "pipelines of 4..14 transactions, CONNECT refused / tunnelled, close-delimited HTTP/1.0, UTF-8 / best-fit / malformed targets; each with its own chunking (random cuts, a cut after every line end, a cut inside the first 13 body bytes, small fixed pieces); 10 personalities, decoder switches, auto-destroy) driven from ONE shared htp_cfg_t: (a) on one thread with the calls "
               "of all connections merged in a generated order (random / round-robin / mostly sequential), parsers created at their first call and destroyed as soon as they finish "
